@@ -71,7 +71,13 @@ fn render_err(e: &PipelineError) -> (String, String) {
                 }
             }
             let kind: String = kind.trim().replace(' ', "_").chars().take(48).collect();
-            (format!("err:{}:{}", stage, kind), message.clone())
+            // which source the diagnostic is reported against (`  --> <name>:<line>:<col>`): the name only
+            let at = message.lines().find_map(|l| l.trim_start().strip_prefix("--> ")).map(|l| {
+                let mut parts: Vec<&str> = l.rsplitn(3, ':').collect();
+                parts.reverse();
+                if parts.len() == 3 { parts[0].to_string() } else { l.to_string() }
+            }).unwrap_or_default();
+            (format!("err:{}:{}@{}", stage, kind, esc(&at)), message.clone())
         }
         PipelineError::TypeMismatch { expected, got } => (format!("err:type-mismatch:{}:{}", expected.replace(' ', "_"), got), String::new()),
         PipelineError::MissingInput { stage } => (format!("err:missing-input:{}", stage), String::new()),
@@ -133,7 +139,10 @@ fn make_pipeline(k: PKind, opt: u32, real: bool) -> Pipeline {
         p.add_stage(Box::new(AirLowerStage));
         p.add_stage(wrap(Box::new(CompilerStage::with_modules(aliases, known, natives, origins))));
         p.add_stage(wrap(Box::new(DebugStripStage::new(opt_level(opt)))));
-        p.add_stage(Box::new(VMStage::with_vm(vm)));
+        // the stage makes its own VM per run (VM::new auto-registers the same stdlib); a VM handed in with
+        // VMStage::with_vm is a session owned by the caller and is not what C16 compares with fresh pipelines
+        drop(vm);
+        p.add_stage(Box::new(VMStage::new()));
     } else {
         p.add_stage(Box::new(TypeInferenceStage::new()));
         p.add_stage(Box::new(OptimizationStage::new(opt_level(opt))));
@@ -219,7 +228,7 @@ impl<'a> Gen<'a> {
         let mut strs: Vec<String> = Vec::new();    // string-valued expressions
         let nblocks = 1 + self.rng.below(5);
         for _ in 0..nblocks {
-            let pickb = if self.nostr { *self.rng.pick(&[0u64, 3, 5, 6, 7, 9, 10]) } else { self.rng.below(11) };
+            let pickb = if self.nostr { *self.rng.pick(&[0u64, 3, 5, 6, 7, 9, 10, 11]) } else { self.rng.below(13) };
             match pickb {
                 0 => { let g = self.fresh("g"); let v = self.int(); s += &format!("let {} = {}\n", g, v); ints.push(g); feats.push("global-int"); }
                 1 => { let g = self.fresh("s"); let w = self.word(); s += &format!("let {} = \"{}\"\n", g, w); strs.push(g); feats.push("global-str"); }
@@ -257,6 +266,10 @@ impl<'a> Gen<'a> {
                     let g = self.fresh("cnt"); let f = self.fresh("bump"); let c = self.int();
                     s += &format!("let mut {g} = {c}\nfn {f}() {{ {g} = {g} + 1\n return {g} }}\n{f}()\n");
                     ints.push(format!("{}()", f)); feats.push("global-mut"); }
+                11 => { // a global that is read, inside a function, before this source defines it: a fresh VM has nothing there
+                    let g = self.fresh("late"); let f = self.fresh("peek"); let r = self.fresh("seen"); let v = self.int();
+                    s += &format!("fn {f}() {{ return {g} }}\nlet {r} = {f}()\nlet {g} = {v}\n");
+                    ints.push(format!("if {r} == null {{ -1 }} else {{ {r} }}")); feats.push("late-global"); }
                 _ => { // several calls of several functions (call-site cache slots)
                     let f = self.fresh("p"); let g = self.fresh("q"); let a = self.int(); let b = self.int();
                     s += &format!("fn {f}() {{ return {a} }}\nfn {g}() {{ return {b} }}\n");
